@@ -8,7 +8,9 @@ S = Session(); R.S=S
 for sl in c03.slices('quick', random.Random(0)):
     if sl.name == which:
         R.run_slice(S, sl, load_findings('C03'))
-print('query_s', R.query_s, R.slowq)
+print('query_s', R.query_s)
+for q in R.slowq[:3]:
+    print(q[0], q[1], q[2], q[3]); print('\n'.join(x.replace('\n',' ')[:400] for x in (q[4] or [])))
 print('mismatches', len(R.mismatches), 'unsupported', len(R.unsupported))
 for m in R.mismatches[:3]: print(json.dumps(m)[:3000])
 for u in R.unsupported[:3]: print(json.dumps(u)[:1500])
